@@ -10,6 +10,9 @@ import (
 	"flag"
 	"fmt"
 	"os"
+	"os/exec"
+	"sort"
+	"sync"
 	"regexp"
 	"strconv"
 	"strings"
@@ -144,6 +147,22 @@ func cmdCheck(args []string) (code int) {
 				}
 			}()
 			ck.Run(&props.Ctx{P: p, R: r, Tier: *tier, Alt: alt})
+			if *tier == "thorough" && alt != nil {
+				// second pass: the same obligations on the GOARCH=386 build configuration
+				r2 := report.NewRun(id, *tier, seed)
+				ck.Run(&props.Ctx{P: alt, R: r2, Tier: *tier})
+				for _, o := range r2.Obls {
+					o.Rule = "[GOARCH=386] " + o.Rule
+					o.Key = "[GOARCH=386] " + o.Key
+					r.Obls = append(r.Obls, o)
+				}
+				for k, v := range r2.Floors {
+					r.Floors["[GOARCH=386] "+k] = v
+				}
+				r.Analysed["build_configurations"] = 2
+				// sensitivity bank (informational): seeded variants this check is recorded to detect
+				r.Extra["sensitivity_bank"] = runBank(id, *repo, *verif)
+			}
 			if r.Finish(*verif, known) != 0 {
 				code = 1
 			}
@@ -209,4 +228,114 @@ func cmdDump(args []string) {
 			}
 		}
 	}
+}
+
+// runBank applies every seeded variant that /verif/seeded/BANK.json records as
+// detected by this property's check to a scratch copy of the repository
+// (outside /repo and /verif, removed right away) and re-runs the quick check
+// on it in a child process. It reports kill counts; it never changes the
+// verdict derived from /repo itself.
+func runBank(id, repo, verif string) map[string]any {
+	out := map[string]any{}
+	b, err := os.ReadFile(verif + "/seeded/BANK.json")
+	if err != nil {
+		out["error"] = "no BANK.json: " + err.Error()
+		return out
+	}
+	var bank map[string]struct {
+		Patch      string   `json:"patch"`
+		Reverse    bool     `json:"reverse"`
+		What       string   `json:"what"`
+		Applies    bool     `json:"applies"`
+		DetectedBy []string `json:"detected_by"`
+	}
+	if err := json.Unmarshal(b, &bank); err != nil {
+		out["error"] = err.Error()
+		return out
+	}
+	var names []string
+	for n, v := range bank {
+		for _, d := range v.DetectedBy {
+			if d == id {
+				names = append(names, n)
+			}
+		}
+	}
+	sort.Strings(names)
+	type res struct {
+		Variant  string `json:"variant"`
+		What     string `json:"what"`
+		Result   string `json:"result"`
+		Findings int    `json:"violation_lines"`
+	}
+	results := make([]res, len(names))
+	sem := make(chan struct{}, 4)
+	var wg sync.WaitGroup
+	self, _ := os.Executable()
+	for i, n := range names {
+		wg.Add(1)
+		go func(i int, n string) {
+			defer wg.Done()
+			sem <- struct{}{}
+			defer func() { <-sem }()
+			v := bank[n]
+			r := res{Variant: n, What: v.What}
+			tmp, err := os.MkdirTemp("", "nxbank-")
+			if err != nil {
+				r.Result = "skipped: " + err.Error()
+				results[i] = r
+				return
+			}
+			defer os.RemoveAll(tmp)
+			if err := exec.Command("rsync", "-a", "--exclude", ".git", repo+"/", tmp+"/repo/").Run(); err != nil {
+				r.Result = "skipped: copy failed"
+				results[i] = r
+				return
+			}
+			_ = os.MkdirAll(tmp+"/verif/evidence", 0o755)
+			if kb, err := os.ReadFile(verif + "/known_findings.json"); err == nil {
+				_ = os.WriteFile(tmp+"/verif/known_findings.json", kb, 0o644)
+			}
+			args := []string{"apply"}
+			if v.Reverse {
+				args = append(args, "-R")
+			}
+			args = append(args, verif+"/"+v.Patch)
+			cmd := exec.Command("git", args...)
+			cmd.Dir = tmp + "/repo"
+			if err := cmd.Run(); err != nil {
+				r.Result = "skipped: context no longer applies"
+				results[i] = r
+				return
+			}
+			child := exec.Command(self, "check", "-property", id, "-tier", "quick", "-repo", tmp+"/repo", "-verif", tmp+"/verif")
+			ob, _ := child.CombinedOutput()
+			r.Findings = strings.Count(string(ob), "VIOLATION property="+id)
+			if r.Findings > 0 {
+				r.Result = "detected"
+			} else {
+				r.Result = "MISSED"
+			}
+			results[i] = r
+		}(i, n)
+	}
+	wg.Wait()
+	killed, skipped := 0, 0
+	for _, r := range results {
+		switch {
+		case r.Result == "detected":
+			killed++
+		case strings.HasPrefix(r.Result, "skipped"):
+			skipped++
+		}
+	}
+	out["variants"] = len(results)
+	out["detected"] = killed
+	out["skipped"] = skipped
+	out["missed"] = len(results) - killed - skipped
+	out["results"] = results
+	if len(results)-killed-skipped > 0 {
+		fmt.Printf("BANK-MISS property=%s %d seeded variant(s) recorded as detected were not detected on this run (see evidence)\n", id, len(results)-killed-skipped)
+	}
+	return out
 }
